@@ -39,7 +39,9 @@ DstOf(d) ==
                  ELSE <<[w |-> d.am[1].w, h |-> d.am[1].h, ox |-> d.am[1].ox, oy |-> d.am[1].oy,
                          g |-> GeomOf(d.am[1])]>>]
 
-SrcOf(s) == [present |-> s.p, w |-> 0, h |-> 0, hc |-> s.hc, cs |-> s.cs, cc |-> s.cc, am |-> <<>>]
+AmcOf(a) == IF a.p /\ a.hc /\ a.cs /\ a.cc THEN <<[ox |-> a.ox, oy |-> a.oy, r |-> Canon(RectList(a.clip))]>> ELSE <<>>
+SrcOf(s, ev, k) == [present |-> s.p, w |-> 0, h |-> 0, hc |-> s.hc, cs |-> s.cs, cc |-> s.cc, am |-> <<>>,
+                    amc |-> IF Has(ev, k) THEN AmcOf(ev[k]) ELSE <<>>]
 
 ClipOf(s) == IF s.hc THEN Val(Canon(RectList(s.clip))) ELSE Empty
 
@@ -58,7 +60,7 @@ TReset ==
 TSetup ==
     /\ l <= TraceLen /\ TraceLog[l].e = "Setup"
     /\ LET ev == TraceLog[l] IN
-       Setup([dst |-> DstOf(ev.dst), src |-> SrcOf(ev.src), mask |-> SrcOf(ev.mask)],
+       Setup([dst |-> DstOf(ev.dst), src |-> SrcOf(ev.src, ev, "srcam"), mask |-> SrcOf(ev.mask, ev, "maskam")],
              [dst |-> IF ev.dst.fmt = "raw" THEN Empty ELSE ClipOf(ev.dst), src |-> ClipOf(ev.src), mask |-> ClipOf(ev.mask)],
              [dst |-> ev.dbuf, src |-> ev.sbuf, alpha |-> ev.abuf])
     /\ l' = l + 1
